@@ -9,7 +9,9 @@ BINS = {"release": ["srvlimits"]}
 RULE = ("cases = one WS connection (a sequence of single-frame messages) or one HTTP POST (explicit body frames, with / "
         "without Content-Length) against a real server assembled through one of the entry points {Server, TowerService, "
         "ws::connect, http::call_with_service_builder, http::call_with_service}, for a grid of unequal "
-        "(max_request, max_response) pairs and message sizes limit-1 / limit / limit+1 / 4*limit / around max_response; "
+        "(max_request, max_response) pairs and message sizes limit-1 / limit / limit+1 / 4*limit / around max_response, plus "
+        "bodies / messages with 1..127 leading whitespace bytes whose total straddles the limit (no Content-Length, every "
+        "frame boundary incl. whitespace-only first frames); "
         "the implementation's accept/reject decisions and rejection bytes are diffed against the extracted model "
         "(Model/ReqLimit.v over the regenerated wiring).  distinct non-trivial = distinct canonical result lines that "
         "contain at least one rejection")
@@ -59,7 +61,9 @@ def sizes_for(ctx, rq, rs):
 def split_frames(rng, data_segs, total, how):
     """cut the message (as bytes, only for moderate sizes) into body frames"""
     b = L.segs_bytes(data_segs)
-    if how == "one" or total < 2:
+    if isinstance(how, list):
+        cuts = sorted(set(c for c in how if 0 < c < total))
+    elif how == "one" or total < 2:
         cuts = []
     elif how == "two":
         cuts = [total // 2]
@@ -126,6 +130,47 @@ def gen_cases(ctx, eps_ws=L.EPS_WS, eps_http=L.EPS_HTTP, pairs=None):
                     for cl in cls:
                         cases.append({"ep": ep, "t": "http", "rq": rq, "rs": rs, "frames": frames, "cl": cl,
                                       "_meta": [{"size": sz, "kind": kind, "plen": plen}]})
+        # ---- HTTP bodies with leading whitespace (1..127 bytes, inside the sniff window): the limit counts every byte
+        #      of the body, also when no Content-Length announces it and whatever the frame boundaries are
+        if rq >= 4:
+            big = ctx.thorough or ctx.search_mode
+            leads = [1, 2, 17, 64, 126, 127] + [rng.randint(1, 127) for _ in range(3)] if big else [1, 127, rng.randint(2, 126)]
+            for ep in eps_http:
+                tcp = ep not in L.HTTP_SOCKET_FREE
+                for lead in leads:
+                    totals = []
+                    for t in (rq - 1, rq, rq + 1, rq + lead - 1, rq + lead, rq + lead + 1, rq + (lead + 1) // 2):
+                        if t >= lead + 2 and t not in totals and t <= 400_000:
+                            totals.append(t)
+                    for total in totals:
+                        m, kind, plen = L.sized_message(nid(), total, lead, rng.choice([b" ", b"\n", b"\t", b"\r"]))
+                        if tcp:
+                            hows = [("one", "one"), ("wsfirst", [lead])] if big else [("one", "one")]
+                        elif total > 100_000:
+                            hows = [("one", "one"), ("wsfirst", [lead])]
+                        else:
+                            hows = [("one", "one"), ("wsfirst", [lead]), ("wssplit", [max(1, lead // 2), lead]), ("many", "many")]
+                            if big:
+                                hows.append(("after", [lead + 1]))
+                        for _name, how in hows:
+                            frames = split_frames(rng, m, total, how)
+                            for cl in ([None] if tcp and not big else [None, total]):
+                                cases.append({"ep": ep, "t": "http", "rq": rq, "rs": rs, "frames": frames, "cl": cl,
+                                              "_meta": [{"size": total, "kind": kind, "plen": plen, "lead": lead}]})
+            # the same on WebSocket: soketto counts the whole frame payload
+            for ep in eps_ws:
+                msgs, meta = [], []
+                for lead in leads[:3]:
+                    for total in (rq, rq + 1, rq + lead):
+                        if total < lead + 2 or total > 400_000:
+                            continue
+                        m, kind, plen = L.sized_message(nid(), total, lead)
+                        msgs.append(m)
+                        meta.append({"size": total, "kind": kind, "plen": plen, "lead": lead})
+                m2, k2, p2 = L.small_call(nid())
+                msgs.append(m2)
+                meta.append({"size": len(L.segs_bytes(m2)), "kind": k2, "plen": p2})
+                cases.append({"ep": ep, "t": "ws", "rq": rq, "rs": rs, "msgs": msgs, "_meta": meta})
     return cases
 
 
@@ -229,7 +274,8 @@ def oracle(ctx, c, r, prop="C07"):
                         fails.append(("inlimit-reply-malformed:" + where, repr(b[:200]), reduced))
         if sorted(log) != sorted(expected_log) and not any(f[0].startswith("oversize-request-processed") for f in fails):
             fails.append(("handler-log-mismatch:" + where, "log %s, expected %s" % (sorted(log)[:12], sorted(expected_log)[:12]), None))
-        over = [m for m in c["_meta"] if m["size"] > rq and m["kind"] == "echo"]
+        within = set(m["plen"] for m in c["_meta"] if m["size"] <= rq and m["kind"] == "echo")
+        over = [m for m in c["_meta"] if m["size"] > rq and m["kind"] == "echo" and m["plen"] not in within]
         if any(("echo:%d" % m["plen"]) in log for m in over):
             if not any(f[0].startswith("oversize-request-processed") for f in fails):
                 fails.append(("oversize-request-dispatched:" + where, "handler log %s contains an oversized message" % log[:10], None))
